@@ -263,6 +263,8 @@ def c06_signed_header_covers_commitment(ctx, v):
     v.covers_total += 1
     if r == z3.sat:
         v.covers_sat += 1
+    if L.depends_on_unknowns(wires[0]) or L.depends_on_unknowns(wires[1]) or L.mentions_unknowns(*same[1:]):
+        return v.undecided("the signing serialisation contains the result of an unmodelled callee")
     for f in fields:
         fa, fb = (b.fields[ctx.field_index("Block", f)] for b in blocks)
         r, m = ex.model_for(pc, z3.Not(value_eq(ex, fa, fb)))
